@@ -609,3 +609,154 @@ class ObjectDeepSeal(Contract):
   def small_models(self):
     from pyvc.contracts import Model
     yield Model({}, {})
+
+
+# ---------------------------------------------------------------------------
+# Constructors honour `sealed=True`: pg.Dict(...) / pg.List(...) created with
+# sealed=True end with self.seal(True) *after* the last member is stored -- on
+# every returning path (empty / non-empty, with and without value spec,
+# pass-through), and never seal (or unseal) anything when sealed is False
+# (members that arrive sealed stay sealed).  seal(True) itself is deep
+# (contracts DictDeepSeal / ListDeepSeal).
+
+class _CtorSeals(Contract):
+  prop = 'C08'
+  raises = {TypeError: (), ValueError: (), KeyError: ()}
+  cls = None
+
+  def setup_policy(self, policy):
+    def ev(kind, ret=None):
+      def h(interp, frame, args, kwargs):
+        interp.path.event(kind, kind, ([interp.resolve(a) for a in args], {k: interp.resolve(v) for k, v in kwargs.items()}))
+        return ret
+      return h
+    policy.contracts[f'{SB}:Symbolic.__init__'] = ev('base-init')
+    policy.contracts[f'{SB}:Symbolic.seal'] = ev('seal')
+    policy.contracts[f'{SD}:Dict.seal'] = ev('seal')
+    policy.contracts[f'{SL}:List.seal'] = ev('seal')
+    policy.contracts[f'{SB}:Symbolic.set_accessor_writable'] = ev('set-accessor-writable')
+    for q in (f'{SD}:Dict._set_item_without_permission_check', f'{SL}:List._set_item_without_permission_check',
+              f'{SD}:Dict.use_value_spec', f'{SL}:List.use_value_spec'):
+      policy.contracts[q] = ev('store')
+    policy.contracts[f'{SD}:Dict._formalized_value'] = lambda interp, frame, args, kwargs: (
+        interp.path.event('store', 'formalize', None), args[-1])[1]
+    policy.contracts[f'{SB}:Symbolic._relocate_if_symbolic'] = lambda interp, frame, args, kwargs: (
+        interp.path.event('store', 'relocate', None), args[-1])[1]
+    policy.contracts[f'{SD}:Dict._relocate_if_symbolic'] = policy.contracts[f'{SB}:Symbolic._relocate_if_symbolic']
+    policy.contracts[f'{SB}:Symbolic._set_raw_attr'] = lambda interp, frame, args, kwargs: None
+    policy.handlers[('cmethod', dict, '__init__')] = lambda interp, a, k, f: None
+    policy.handlers[('cmethod', list, '__init__')] = lambda interp, a, k, f: None
+    policy.handlers[('cmethod', dict, '__setitem__')] = lambda interp, a, k, f: (
+        interp.path.event('store', 'dict.__setitem__', None))
+    policy.handlers[('len', pg.List)] = lambda interp, v: SAny('len')
+
+  def _sealed_z(self, interp):
+    return interp.to_z3(self._sealed)
+
+  def trace_sealed_request_is_honoured_last(self, events, outcome, interp, env):
+    """sealed=True: the constructor's last effect on the members / flags is
+    self.seal(True), after every store."""
+    if outcome[0] != 'return':
+      return True
+    seals = [k for k, e in enumerate(events) if e.kind == 'seal']
+    stores = [k for k, e in enumerate(events) if e.kind in ('store', 'base-init')]
+    ok = False
+    if len(seals) == 1:
+      args, kwargs = events[seals[0]].data
+      flag = kwargs.get('sealed', args[-1] if len(args) > 1 else True)
+      ok = flag is True and all(k < seals[0] for k in stores) and args[0] is interp.resolve(env['self'])
+    return z3.Implies(self._sealed_z(interp), z3.BoolVal(ok))
+
+  def trace_nothing_is_sealed_or_unsealed_otherwise(self, events, outcome, interp, env):
+    if outcome[0] != 'return':
+      return True
+    seals = [e for e in events if e.kind == 'seal']
+    return z3.Implies(z3.Not(self._sealed_z(interp)), z3.BoolVal(not seals))
+
+  def trace_base_constructor_does_not_seal_early(self, events, outcome, interp, env):
+    """Members are filled in after Symbolic.__init__: it must be told
+    sealed=False, or filling in would be refused."""
+    bi = [e for e in events if e.kind == 'base-init']
+    if outcome[0] != 'return':
+      return True
+    return len(bi) == 1 and bi[0].data[1].get('sealed') is False
+
+  def small_models(self):
+    from pyvc.contracts import Model
+    yield Model({}, {})
+
+
+@register
+class DictCtorSeals(_CtorSeals):
+  target = f'{SD}:Dict.__init__'
+  variants = ('empty/none', 'empty/dict', 'one-member', 'typed', 'typed/pass-through')
+
+  def inputs(self, b):
+    v = self.variant
+    self._sealed = b.bool('sealed')
+    s = SObj(pg.Dict, {}, name='self')
+    s.ghost['raw_setattr'] = True
+    dict_obj = None if v in ('empty/none',) else ({} if v == 'empty/dict' else {'a': b.any('member')})
+    spec_ = SObj(pg.typing.Dict, {}, name='value_spec') if v.startswith('typed') else None
+    kw = dict(sealed=self._sealed, accessor_writable=b.bool('accessor_writable'), allow_partial=b.bool('allow_partial'))
+    if v == 'typed/pass-through':
+      kw['pass_through'] = True
+    self._kw = kw
+    return dict(self=s, dict_obj=dict_obj, value_spec=spec_, onchange_callback=None), {}
+
+  def drive(self, interp, pyf, args, env, check):
+    return interp.call_function(pyf, [args['self'], args['dict_obj']],
+                                dict(value_spec=args['value_spec'], onchange_callback=None, **self._kw))
+
+  def replay(self, obligation, m):
+    bad = []
+    spec_ = pg.typing.Dict([('a', pg.typing.Any(default=1))])
+    for name, mk in (('pg.Dict(sealed=True)', lambda: pg.Dict(sealed=True)),
+                     ('pg.Dict({}, sealed=True)', lambda: pg.Dict({}, sealed=True)),
+                     ('pg.Dict(a=pg.Dict(x=1), sealed=True)', lambda: pg.Dict(a=pg.Dict(x=1), sealed=True)),
+                     ('pg.Dict(value_spec=..., sealed=True)', lambda: pg.Dict(value_spec=spec_, sealed=True)),
+                     ('pg.Dict({}, value_spec=..., sealed=True, pass_through=True)',
+                      lambda: pg.Dict({'a': 1}, value_spec=spec_, sealed=True, pass_through=True))):
+      d = mk()
+      if not d.is_sealed or any(isinstance(x, pg.Symbolic) and not x.is_sealed for x in d.sym_values()):
+        bad.append(f'{name}: is_sealed={d.is_sealed}, members sealed='
+                   f'{[x.is_sealed for x in d.sym_values() if isinstance(x, pg.Symbolic)]}')
+    inner = pg.Dict(x=1, sealed=True)
+    d = pg.Dict(a=inner, sealed=False)
+    if d.is_sealed or not d.sym_getattr('a').is_sealed:
+      bad.append(f'pg.Dict(a=<sealed>, sealed=False): is_sealed={d.is_sealed}, member sealed={d.sym_getattr("a").is_sealed}')
+    return dict(outcome='reproduced' if bad else 'not-reproduced', detail='; '.join(bad) or 'sealed request honoured')
+
+
+@register
+class ListCtorSeals(_CtorSeals):
+  target = f'{SL}:List.__init__'
+  variants = ('empty/none', 'empty/list', 'one-member', 'typed')
+
+  def inputs(self, b):
+    v = self.variant
+    self._sealed = b.bool('sealed')
+    s = SObj(pg.List, {}, name='self')
+    s.ghost['raw_setattr'] = True
+    items = None if v == 'empty/none' else ([] if v == 'empty/list' else [b.any('member')])
+    spec_ = SObj(pg.typing.List, {}, name='value_spec') if v == 'typed' else None
+    self._kw = dict(value_spec=spec_, onchange_callback=None, sealed=self._sealed,
+                    accessor_writable=b.bool('accessor_writable'), allow_partial=b.bool('allow_partial'),
+                    root_path=None)
+    return dict(self=s, items=items), {}
+
+  def drive(self, interp, pyf, args, env, check):
+    return interp.call_function(pyf, [args['self'], args['items']], dict(self._kw))
+
+  def replay(self, obligation, m):
+    bad = []
+    for name, mk in (('pg.List(sealed=True)', lambda: pg.List(sealed=True)),
+                     ('pg.List([], sealed=True)', lambda: pg.List([], sealed=True)),
+                     ('pg.List([pg.Dict(x=1), [1]], sealed=True)', lambda: pg.List([pg.Dict(x=1), [1]], sealed=True)),
+                     ('pg.List([1], value_spec=..., sealed=True)',
+                      lambda: pg.List([1], value_spec=pg.typing.List(pg.typing.Int()), sealed=True))):
+      d = mk()
+      if not d.is_sealed or any(isinstance(x, pg.Symbolic) and not x.is_sealed for x in d.sym_values()):
+        bad.append(f'{name}: is_sealed={d.is_sealed}, members sealed='
+                   f'{[x.is_sealed for x in d.sym_values() if isinstance(x, pg.Symbolic)]}')
+    return dict(outcome='reproduced' if bad else 'not-reproduced', detail='; '.join(bad) or 'sealed request honoured')
